@@ -5,7 +5,10 @@ from gen.patcommon import cp, lit, esc, spec, fmt, NOSPEC
 
 RULE = ("patterns are PRINTED from ASTs of the documented grammar (the model re-prints the AST and refuses a "
         "case whose text differs): (a) every alias of every formatter x {no spec, ':', ':>12', ':.3', ':~<9.9'} "
-        "x {full record, record without module/file/line} x 5 levels for the groups; (b) every special character "
+        "x {full record, record without module/file/line} x 5 levels for the groups; the group sweep, one "
+        "spec of every leaf alias, nested debug/release/highlight/plain groups and 400 random ASTs also through "
+        "the RELEASE build of the harness (quick tier too); 12 cases of the program shape 'parent encodes the "
+        "pid/thread formatters, forks, the child encodes' (the child reports its own pid / thread id); (b) every special character "
         "in both escape styles directly before / after / inside the argument of a formatter; (c) date formats "
         "over 15 run-stable and 17 clock-dependent strftime directives with 0/1/2 arguments, zone utc|local, "
         "under TZ=UTC and TZ=Asia/Tokyo; (d) MDC with present / absent keys, with and without default, keys and "
@@ -22,7 +25,7 @@ ASSUMPTIONS = [
     "chrono renders the model's date oracle: a rendering is compared exactly when it did not change between the probes before and after the encode call, otherwise digit positions are compared as 'some digit'",
     "explicit widths <= 64 in the correspondence run (theorems hold for all widths)",
     "the capture sink accepts every write (short writes are C10's subject)",
-    "quick tier: debug build profile only ({D(..)} renders, {R(..)} is empty); thorough runs both profiles",
+    "quick tier: the debug build profile for all cases plus the release profile for the group / nesting families, a leaf-alias sample and 400 random ASTs; thorough runs every case family in both profiles",
 ]
 TRUSTED = ["chrono's strftime validity check and rendering (oracle `strftime_ok` / `time_str` of Model/Pattern.v)",
            "C10's refinement of the byte-level width writers to the character-level law `apply_params`"]
@@ -30,7 +33,9 @@ EXHAUSTIVE = {"quick": False, "thorough": False}
 
 
 def prepare(ctx):
-    pc.prepare(ctx, "c09")
+    # the property is profile-dependent ({D(..)} / {R(..)}; nothing may be dropped in
+    # either profile): the release build of the harness is used in the quick tier too
+    pc.prepare(ctx, "c09", release_in_quick=True)
 
 
 run_impl = pc.run_impl
@@ -219,6 +224,43 @@ def cases(rng, tier):
                             r = [lvl] + rec[1:]
                             out.append(mk(rng, tier, [lit("<"), fmt(nm, [[fmt("l"), lit(" "), fmt("m", (), spec(1, (None, 1), "7"))]], sp),
                                                      lit(">")], r, [], [], env))
+    # (a') release build profile (quick tier too): every group kind with and without specs,
+    # nested groups, one spelling of every other formatter, random ASTs
+    if tier == "quick":
+        rel = [0, 1]
+        for rec in (pc.FULL_REC, pc.BARE_REC):
+            for sp in SPECS5:
+                for a in pc.GROUPS:
+                    for nm in set(a):
+                        for lvl in range(1, 6):
+                            r = [lvl] + rec[1:]
+                            out.append(mk(rng, tier, [lit("["), fmt(nm, [[fmt("l"), lit(" "), fmt("m", (), spec(1, (None, 1), "7"))]], sp),
+                                                     lit("]")], r, [], [], rel))
+            for a in pc.LEAVES:
+                for nm in a:
+                    out.append(mk(rng, tier, [lit("["), fmt(nm, (), SPECS5[4]), lit("]")], rec, [], [cp("thr")], rel))
+            out.append(mk(rng, tier, [fmt("d", [[lit("%Y %z")], [lit("utc")]]), fmt("date"), fmt("X", [[lit("k")], [lit("dflt")]])],
+                          rec, [], [], rel))
+        for env in ([0, 0], [0, 1]):
+            out.append(mk(rng, tier, [fmt("", [[fmt("D", [[fmt("R", [[lit("r")]]), lit("d")]]), fmt("h", [[fmt("", [[lit("y"), fmt("l")]])]])]]),
+                                     fmt("R", [[fmt("", [[fmt("D", [[lit("x")]]), lit("z")]], spec(1, ("*", 1), "6"))]]),
+                                     fmt("debug", [[fmt("", [[fmt("m")]], spec(1, None, None, "3"))]])], envsel=env))
+            out.append(mk(rng, tier, [fmt("", [[]]), fmt("D", [[]]), fmt("R", [[]]), fmt("h", [[]]), lit("|"),
+                                     fmt("", [[fmt("", [[fmt("", [[fmt("t")]])]])]], spec(1, ("-", 1), "9"))], envsel=env))
+        for i in range(400):
+            out.append(mk(rng, tier, g_seq(rng, rng.choice([2, 3, 4]), False), envsel=[rng.below(2), 1]))
+    # (a'') program shape "encode, fork, encode in the child": pid / thread formatters must show
+    # the values of the process that encodes the record
+    for prof in (0, 1):
+        for seq in ([fmt("P"), lit(" "), fmt("pid"), lit(" "), fmt("I"), lit(" "), fmt("i")],
+                    [fmt("pid", (), spec(1, (None, 1), "12")), lit("|"), fmt("thread_id"), lit("|"), fmt("tid")],
+                    [fmt("h", [[fmt("P")]]), lit(" "), fmt("T"), lit(" "), fmt("m")],
+                    [lit("["), fmt("", [[fmt("P"), lit("/"), fmt("I")]], spec(1, ("0", 1), "24")), lit("] "), fmt("l")],
+                    [fmt("D", [[fmt("pid")]]), fmt("R", [[fmt("P")]]), lit(" "), fmt("t")],
+                    [fmt("P", (), spec(1, None, None, "2")), fmt("pid", (), spec(1, ("x", 0), "9", "9"))]):
+            c = mk(rng, tier, seq, envsel=[rng.below(2), prof])
+            c[0] = 4
+            out.append(c)
     # (b) escapes adjacent to formatters
     for c in pc.SPECIALS:
         for st in (0, 1):
